@@ -85,6 +85,8 @@ _state = {}
 def worker_setup(ctx):
     """In-situ contract on the real PITConv1d._time_mask: in discrete mode the result is binary,
     non-empty and a comb suffix that contains the most recent tap (R-time)."""
+    from vf import neutral
+    neutral.enable(ctx)      # neutral prefixes after conversion in half of the cases
     from plinio.methods.pit.nn import PITConv1d
     orig = PITConv1d._time_mask
 
